@@ -18,6 +18,9 @@ fn rle(v: &[usize]) -> String {
     out.join(",")
 }
 
+/// pseudo state standing for "the automaton panicked on this step"
+const PANIC_STATE: StateID = StateID::MAX;
+
 pub fn dump<A: Automaton>(a: &A) -> Result<String, String> {
     let mut idx: HashMap<StateID, usize> = HashMap::new();
     let mut order: Vec<StateID> = vec![];
@@ -44,16 +47,32 @@ pub fn dump<A: Automaton>(a: &A) -> Result<String, String> {
         let mut fl = Vec::with_capacity(256);
         for b in 0..=255u8 {
             aho_corasick::verif::reset_counters();
-            let n = a.next_state(Anchored::No, sid, b);
+            // a `next_state` that panics (an index out of range inside the automaton) is dumped as a step to a
+            // pseudo state (id usize::MAX: not special, no match, loops to itself), so that the certificate fails AT
+            // this (state, byte) with its path instead of the whole dump being lost
+            let step = |anch: Anchored| {
+                if sid == PANIC_STATE {
+                    return PANIC_STATE;
+                }
+                std::panic::catch_unwind(std::panic::AssertUnwindSafe(|| a.next_state(anch, sid, b)))
+                    .unwrap_or(PANIC_STATE)
+            };
+            let n = step(Anchored::No);
             fl.push(aho_corasick::verif::counters().1 as usize);
             tn.push(intern(n, &mut order));
             aho_corasick::verif::reset_counters();
-            let y = a.next_state(Anchored::Yes, sid, b);
+            let y = step(Anchored::Yes);
             if aho_corasick::verif::counters().1 != 0 {
                 return Err("anchored-next_state-followed-failure-link".into());
             }
             ty.push(intern(y, &mut order));
             triples += 2;
+        }
+        if sid == PANIC_STATE {
+            let tys = "=".to_string();
+            states.push(format!("0000/./{}/{}/{}", rle(&tn), tys, rle(&fl)));
+            i += 1;
+            continue;
         }
         let flags = format!(
             "{}{}{}{}",
